@@ -262,8 +262,9 @@ def clauses(tier, seed):
              run_identities, replay=replay_identity, group='jax-b', heavy=True),
   ]
   try:
-    from contracts import sigma_contracts, conformance_contracts
+    from contracts import sigma_contracts, conformance_contracts, column_contracts, vertical_matrix_contracts
     cl += sigma_contracts.clauses() + [conformance_contracts.clauses()['C13']]
+    cl += column_contracts.clauses()['C13'] + vertical_matrix_contracts.clauses(only=('get_sigma_ratios', 'get_geopotential', 'lemma:row sums'))
   except ImportError:
     pass
   return cl
@@ -273,9 +274,12 @@ MANIFEST = {
     'engine': 'pyvc+jxa',
     'technique': ('contract-based deductive: VCs from the real source in 1-d array mode for every layer count -- level-set validation, geometry (midpoints, thickness, '
                   'centre-to-centre), centred difference (formula, affine exactness), centred vertical advection (documented formula) and the summation-by-parts lemma by induction '
-                  '(z3, non-linear steps through index-case resolution + abstraction); (bi)linearity proved on the traced programs; identities as matrix identities on complete column '
+                  '(z3, non-linear steps through index-case resolution + abstraction); cumulative / total sigma integrals as ghost prefix sums (ends at the total, down + up - total == local '
+                  'contribution, methods agree), the log-sigma trapezoid integral equal to the geopotential operator by downward induction, the geopotential matrix (loop invariants) and its '
+                  'cumulative-sum form; (bi)linearity proved on the traced programs; identities as matrix identities on complete column '
                   'bases for enumerated level sets (bounded twins, also guarding NaN/float behaviour)'),
     'text': ('other: validation, geometry, centred difference/advection and summation by parts are proved for all layer counts and all strictly increasing level sets (floats as reals); '
-             'cumulative integrals, cumsum strategies and the geopotential operator are complete over column data but bounded over layer counts and level sets.'),
-    'note': 'trusted: A1/A2; independent loop specification of the trapezoid rule; jxa rules.',
+             'cumulative integrals, the dot / jax cumulative-sum methods and the geopotential operator likewise (ghost sums; the reverse jax method through jnp.flip and the sharded schedule '
+             'stay bounded / in C07).'),
+    'note': 'trusted: A1/A2; independent loop specification of the trapezoid rule; jxa rules; callee contract _dot_cumsum == prefix/suffix sums (kernel proved in this property, sharded schedule in C07); jnp.cumsum textbook contract (A8).',
 }
